@@ -1017,21 +1017,44 @@ fn run_deep(rep: &Report, thorough: bool) {
             }
         }
     }
-    cases.par_iter().enumerate().for_each(|(ci, (pat, n, kind))| {
-        let (pat, n, kind) = (*pat, *n, *kind);
-        let r = with_deadline(move || catch(move || check_deep(pat, n, kind)), Duration::from_secs(180));
+    // a chain that misses the 180 s deadline while all chains run side by side is tried once more, ALONE and with a
+    // longer deadline (quick 240 s, thorough 900 s), before it is called non-terminating: on a loaded machine the
+    // 300000-deep chains of the thorough tier have missed the first deadline on the unchanged tree
+    let retry_s = if thorough { 900 } else { 240 };
+    let slow: std::sync::Mutex<Vec<(usize, usize, Kind)>> = std::sync::Mutex::new(vec![]);
+    let first_pass = AtomicBool::new(true);
+    let judge = |ci: usize, pat: usize, n: usize, kind: Kind, deadline_s: u64| {
+        let r = with_deadline(move || catch(move || check_deep(pat, n, kind)), Duration::from_secs(deadline_s));
+        if r.is_none() && first_pass.load(Ordering::Relaxed) {
+            slow.lock().unwrap().push((pat, n, kind));
+            rep.add("deep_chains_retried_alone", 1);
+            return;
+        }
+        judge_deep(rep, ci, pat, n, kind, r, deadline_s);
+    };
+    cases.par_iter().enumerate().for_each(|(ci, (pat, n, kind))| judge(ci, *pat, *n, *kind, 180));
+    first_pass.store(false, Ordering::Relaxed);
+    let again: Vec<(usize, usize, Kind)> = slow.lock().unwrap().clone();
+    for (k, (pat, n, kind)) in again.into_iter().enumerate() {
+        judge(cases.len() + k, pat, n, kind, retry_s);
+    }
+}
+
+fn judge_deep(rep: &Report, ci: usize, pat: usize, n: usize, kind: Kind, r: Option<Result<Option<(String, String)>, PanicInfo>>, deadline_s: u64) {
+    {
+        let (pat, n, kind) = (pat, n, kind);
         rep.add("deep_chains", 1);
         rep.max("deepest_chain", n as u64);
         rep.distinct_hashes(&[hash64(&format!("deep|{pat}|{n}|{kind:?}"))]);
         let f = match r {
-            None => Some(("nontermination".to_string(), format!("{} chain of depth {n} ({kind:?} cache): simplify did not return within 180 s", DEEP_PATTERNS[pat]))),
+            None => Some(("nontermination".to_string(), format!("{} chain of depth {n} ({kind:?} cache): simplify did not return within 180 s next to the other chains and not within {deadline_s} s alone", DEEP_PATTERNS[pat]))),
             Some(Err(p)) => Some((format!("deep-panic|{}", p.file()), format!("{} chain of depth {n}: panic {} ({})", DEEP_PATTERNS[pat], p.msg, p.short_loc()))),
             Some(Ok(f)) => f,
         };
         if let Some((class, what)) = f {
             rep.violation(Violation { sig: format!("C13|{class}|deep:{}|{}|", DEEP_PATTERNS[pat], if n > 65_536 { "n>65536" } else { "n<=65536" }), what, case: json!({"kind": "deep", "pattern": pat, "n": n, "cache": format!("{kind:?}")}), order: (1u64 << 60) + ci as u64 });
         }
-    });
+    }
 }
 
 pub fn run(opts: &Opts, rep: &Report) {
